@@ -13,10 +13,11 @@ import (
 )
 
 type comp struct {
-	id       int
-	runnable bool
-	failInit bool
-	failRun  bool
+	id        int
+	runnable  bool
+	failInit  bool
+	failRun   bool
+	failClose bool
 }
 
 func (c comp) wire() string {
@@ -26,7 +27,7 @@ func (c comp) wire() string {
 		}
 		return "0"
 	}
-	return fmt.Sprintf("%d:%s:%s:%s", c.id, b(c.runnable), b(c.failInit), b(c.failRun))
+	return fmt.Sprintf("%d:%s:%s:%s:%s", c.id, b(c.runnable), b(c.failInit), b(c.failRun), b(c.failClose))
 }
 
 type recorder struct{ evs []string }
@@ -56,6 +57,9 @@ func (p *runnable) Run(ctx context.Context) error {
 }
 func (p *runnable) Close(ctx context.Context) error {
 	p.rec.evs = append(p.rec.evs, fmt.Sprintf("c%d", p.c.id))
+	if p.c.failClose {
+		return errors.New("close failed")
+	}
 	return nil
 }
 
@@ -195,14 +199,24 @@ func oneStart(r *corr.Run, cs []comp) {
 			cop = "close"
 		}
 		m := r.Ask(cop)
-		r.Check("C20", "app.close", []string{cop}, m, evs(rec.evs))
+		cres := "ok"
+		wantErr := false
+		for _, c := range cs {
+			if c.runnable && c.failClose {
+				wantErr = true
+			}
+		}
+		if cerr != nil {
+			cres = "err"
+		}
+		r.Check("C20", "app.close", []string{cop}, m, cres+" "+evs(rec.evs))
 		var want []string
 		for i := len(cs) - 1; i >= 0; i-- {
 			if cs[i].runnable {
 				want = append(want, fmt.Sprintf("c%d", cs[i].id))
 			}
 		}
-		if evs(want) != evs(rec.evs) || cerr != nil {
+		if evs(want) != evs(rec.evs) || (cerr != nil) != wantErr {
 			r.Violate("C20", "", "app.close.oracle", fmt.Sprintf("close log %q, property requires %q (err=%v)", evs(rec.evs), evs(want), cerr), []string{cop})
 		}
 		r.Case(cop, len(cs) >= 2)
@@ -305,7 +319,7 @@ func Run(r *corr.Run) {
 		n := 1 + r.Intn(8)
 		cs := make([]comp, n)
 		for i := range cs {
-			cs[i] = comp{id: i, runnable: r.Chance(60), failInit: r.Chance(8), failRun: r.Chance(12)}
+			cs[i] = comp{id: i, runnable: r.Chance(60), failInit: r.Chance(8), failRun: r.Chance(12), failClose: r.Chance(20)}
 		}
 		oneStart(r, cs)
 	}
